@@ -95,11 +95,11 @@ class Verifier(ExprMixin, CallMixin, Engine):
             if name == "append":
                 x = self.as_int(args[0])
                 self.may_raise(p, z3.Or(x < 0, x > 255), "ValueError", ln)
-                new = VBytes(z3.Concat(tgt.t, z3.Unit(x)), "bytearray")
+                new = VBytes(self.flat_concat(tgt.t, z3.Unit(x)), "bytearray")
             elif name == "extend":
                 if not isinstance(args[0], VBytes):
                     raise Unsupported("bytearray.extend(non-bytes)")
-                new = VBytes(z3.Concat(tgt.t, args[0].t), "bytearray")
+                new = VBytes(self.flat_concat(tgt.t, args[0].t), "bytearray")
             elif name == "reverse":
                 r = fresh(S, "rev")
                 k = z3.Int("k!rev")
@@ -260,7 +260,7 @@ class Verifier(ExprMixin, CallMixin, Engine):
         cur = self.ev(load, p, module)
         rhs = self.ev(st.value, p, module)
         if isinstance(cur, VBytes) and isinstance(st.op, ast.Add):
-            new = VBytes(z3.Concat(cur.t, rhs.t), cur.kind)
+            new = VBytes(self.flat_concat(cur.t, rhs.t), cur.kind)
         else:
             new = self.binop(type(st.op), cur, rhs, p, st)
         self.store(st.target, new, p, module)
@@ -679,13 +679,16 @@ class Verifier(ExprMixin, CallMixin, Engine):
     def apply_hint(self, hint, p, module, name):
         """A hint is a boolean expression (asserted as its own obligation, then assumed), a lemma call, or any term
         (evaluated only to instantiate the unfolding axioms of the spec functions it mentions)."""
-        guard_names = []
-        if hint.startswith("using "):
-            # "using a, b: <hint>"  - the hint applies only on paths where the ghost names a, b are bound
-            head, hint = hint[6:].split(":", 1)
-            guard_names = [x.strip() for x in head.split(",")]
-            if any(g not in p.ghost and g not in p.env for g in guard_names):
-                return
+        if hint.startswith("using ") or hint.startswith("unless "):
+            # "using a, b; unless c: <hint>" - the hint applies only on paths where the ghost names a, b are bound and c is not
+            head, hint = hint.split(":", 1)
+            for part in head.split(";"):
+                part = part.strip()
+                kind, names = part.split(" ", 1)
+                for g in [x.strip() for x in names.split(",")]:
+                    bound = g in p.ghost or g in p.env
+                    if (kind == "using" and not bound) or (kind == "unless" and bound):
+                        return
         e = parse_expr(hint)
         q = self.spec_path(p, p.env, old=p.old)
         if isinstance(e, ast.Call) and isinstance(e.func, ast.Name) and e.func.id.startswith("lemma_"):
@@ -828,6 +831,8 @@ class Verifier(ExprMixin, CallMixin, Engine):
             for i, cl in enumerate(c.ensures):
                 goal = self.eval_clause(cl, q, fi.module)
                 p.obls.append(Obligation(f"{name}/ensures[{i}]", p.pc, goal, "ensures", fi.node.lineno, name, {"clause": cl, "variant": vi}))
+                # later postconditions may use earlier ones (each is proved separately, so this is sound)
+                p.pc.append(goal)
             self.check_frame(fi, c, p, name, exceptional=False)
         else:
             cls = val.cls
